@@ -98,11 +98,11 @@ func c03Queries(cl adapt.Client, m *model.Client, st *mon.HistoryStats) []model.
 				pool = ixHashPool[:1]
 			}
 			if ix.Hash == "r" {
-				pool = []string{"1", "10"}
+				pool = ixRangePool[:2]
 			}
 			for _, hv := range pool {
 				for _, rev := range []bool{false, true} {
-					op := queryOp(name, ix.Name, keyCondEq(ix.Hash, ":h"), nil, val.Item{":h": val.Str(hv)}, rev, rrCanon)
+					op := queryOp(name, ix.Name, keyCondEq(ix.Hash, ":h"), nil, val.Item{":h": ixV(ix.Hash, hv)}, rev, rrCanon)
 					st.Calls++
 					for _, d := range m.Step(op, cl.Do(op)) {
 						d.Rule = "index-" + d.Rule
@@ -176,6 +176,11 @@ func (p *c03) RunCase(ctx *runner.Ctx) runner.CaseResult {
 	r := mon.Rng(ctx.Seed, "C03", idx)
 	adapter := adapt.Adapters[idx%2]
 	late := idx%3 == 0 // indexes created late on a non-empty table
+	if idx%4 == 1 {
+		// typed keys: number / binary sort key and index keys (see useTypedPools)
+		defer useTypedPools(r)()
+		x.r.Counters["typed_key_histories"]++
+	}
 	spec := ixSpec("tbl03", !late)
 	n := 30 + r.Intn(31)
 	ops := []adapt.Op{}
@@ -184,7 +189,7 @@ func (p *c03) RunCase(ctx *runner.Ctx) runner.CaseResult {
 	if !late {
 		created["gsi1"], created["gsi2"], created["gsi4"] = true, true, true
 	}
-	ixDefs := map[string]adapt.IndexSpec{"gsi1": {Name: "gsi1", Hash: "g"}, "gsi2": {Name: "gsi2", Hash: "g", Range: "s"}, "gsi4": {Name: "gsi4", Hash: "r", Range: "h"}}
+	ixDefs := map[string]adapt.IndexSpec{"gsi1": ixIndex("gsi1"), "gsi2": ixIndex("gsi2"), "gsi4": ixIndex("gsi4")}
 	existing := func() []string {
 		out := []string{}
 		for _, n := range []string{"gsi1", "gsi2", "gsi4", "twin"} {
@@ -200,13 +205,15 @@ func (p *c03) RunCase(ctx *runner.Ctx) runner.CaseResult {
 		case k == 0:
 			op = adapt.Op{Kind: adapt.OpClearTable, Table: spec.Name}
 		case k <= 2 && !created["gsi1"]:
-			op = adapt.Op{Kind: adapt.OpUpdateTable, Table: spec.Name, Chg: []adapt.IndexChange{{Create: &adapt.IndexSpec{Name: "gsi1", Hash: "g"}}}}
+			d := ixIndex("gsi1")
+			op = adapt.Op{Kind: adapt.OpUpdateTable, Table: spec.Name, Chg: []adapt.IndexChange{{Create: &d}}}
 			created["gsi1"] = true
 		case k <= 4 && !created["gsi2"]:
-			if r.Intn(2) == 0 {
-				op = adapt.Op{Kind: adapt.OpAddIndex, Table: spec.Name, Ix: &adapt.IndexSpec{Name: "gsi2", Hash: "g", Range: "s"}}
+			d := ixIndex("gsi2")
+			if r.Intn(2) == 0 && d.HashT == "" && d.RangeT == "" {
+				op = adapt.Op{Kind: adapt.OpAddIndex, Table: spec.Name, Ix: &d} // the helper declares string keys only
 			} else {
-				op = adapt.Op{Kind: adapt.OpUpdateTable, Table: spec.Name, Chg: []adapt.IndexChange{{Create: &adapt.IndexSpec{Name: "gsi2", Hash: "g", Range: "s"}}}}
+				op = adapt.Op{Kind: adapt.OpUpdateTable, Table: spec.Name, Chg: []adapt.IndexChange{{Create: &d}}}
 			}
 			created["gsi2"] = true
 		case k == 5 && created["gsi1"] && late:
